@@ -48,7 +48,8 @@ def cases():
                 _, mt = sym_mixture(**mk)
                 _, cx = sym_composition('x', 0.3, ctype)
                 cs.append(Case('act_%s_%s_%s' % (mname, ct, ctype),
-                               'activity N T %s %s %s' % (mt, cx, act_text(ct)), run, pair))
+                               'activity N T %s %s %s' % (mt, cx, act_text(ct)), run, pair,
+                               alt_call='activity_gen N true T %s %s %s' % (mt, cx, act_text(ct))))
     # UNIQUAC end-point substitution
     for nm, val in (('x0', 0.0), ('x1', 1.0)):
         def run(val=val):
@@ -71,7 +72,8 @@ def cases():
                 _, mt = sym_mixture(vp1=vp1, vp2=vp2)
                 _, cx = sym_composition('x', 0.3, ctype)
                 cs.append(Case('pp_%s_%s_%s_%s' % (vp1, vp2, ct, ctype),
-                               'partial_pressures N T %s %s %s' % (mt, cx, act_text(ct)), run, pair))
+                               'partial_pressures N T %s %s %s' % (mt, cx, act_text(ct)), run, pair,
+                               alt_call='partial_pressures_gen N true T %s %s %s' % (mt, cx, act_text(ct))))
     return cs
 
 
